@@ -164,7 +164,20 @@ def run(R):
                     R.check(len(wr) == 1, 'C20.R1', 'set-decoder:%s:field' % k, site(dc, r['bb']), 'decoded %s stored in details.%s: %d assignment(s)' % (k, field_of[k], len(wr)))
                 if label == 'list-decoder' and k:
                     ps = [dc.term(x) for x in tregion if dc.term(x)['k'] == 'call' and dc.term(x).get('name') == 'push']
-                    R.check(len(ps) == 1 and term_contains(dc.origin(ps[0]['args'][1]), lambda x: is_call(x, name='from_any_ref')), 'C20.R1', 'list-decoder:%s:pushed' % k, site(dc, r['bb']), 'decoded %s pushed to the list' % k)
+                    okp = len(ps) == 1 and term_contains(dc.origin(ps[0]['args'][1]), lambda x: is_call(x, name='from_any_ref'))
+                    if not ps:
+                        # one push shared by all kinds, after the per-kind decoding (`if let Some(d) = decode_known(any)? { v.push(d) }`):
+                        # what this kind decoded is among what is pushed, and once it decoded the loop cannot go on without the push
+                        # (feasible paths: the Some built on this arm decides the later `if let`)
+                        allp = dc.calls(name='push')
+                        fbs = [x for x in tregion if dc.term(x)['k'] == 'call' and dc.term(x).get('name') == 'from_any_ref']
+                        nxt = [bb_ for bb_, t_ in dc.calls(name='next') if 'Iterator' in (t_.get('fn') or '')]
+                        if len(allp) == 1 and len(fbs) == 1 and nxt:
+                            pb_ = allp[0][0]
+                            mine = lambda x: is_call(x, name='from_any_ref') and x[4].get('t') == dc.term(fbs[0]).get('t')
+                            feas = dc.reach_ps(fbs[0], removed={pb_})
+                            okp = term_contains(dc.origin(allp[0][1]['args'][1]), mine) and pb_ in dc.reachable(fbs[0]) and not any(n_ in feas for n_ in nxt)
+                    R.check(okp, 'C20.R1', 'list-decoder:%s:pushed' % k, site(dc, r['bb']), 'decoded %s pushed to the list' % k)
             R.eq(sorted(x for x in seen if x), sorted(kinds), 'C20.R1', '%s:kinds' % label, site(dc), 'kinds recognised by the %s' % label)
             # iterates self.details in order
             it = [t for bb, t in dc.calls(name='iter') if mentions_field(dc.origin(t['args'][0]), 'details')]
